@@ -6,6 +6,7 @@ Line-protocol operations for the transmission tracker (C08; receiver side of C07
 ```
 t.init <raises e.g. 10>                      -> ok
 t.burst <1|2> <symbol…>                      -> <seq> <label> <stream> <cc> <new events of observer 0>|<observer 1>|…
+t.flush                                      -> <new events of observer 0>|…   (end_all_transmissions)
 t.state                                      -> <slot 1> / <slot 2>
 ```
 symbols: `vh <hex> <cc>` voice LC header, `tm <hex> <cc>` terminator, `dh <btf|-> <a> <sap> <hex> <cc>` data
@@ -114,6 +115,13 @@ def trackerStep (st : TrackerState) (op : String) (args : List String) : Tracker
             toString (t'.slot two).cc, (if news.isEmpty then "-" else "|".intercalate news)])
     | none, _, _ => (none, "ERR no-terminal")
     | _, _, _ => (st, "ERR bad-args")
+  | "t.flush", [] =>
+    match st with
+    | some t =>
+      let (t', _) := t.flush
+      let news := (t.obs.zip t'.obs).map fun (o, o') => eventsStr (o'.log.drop o.log.length)
+      (some t', if news.isEmpty then "-" else "|".intercalate news)
+    | none => (st, "ERR no-terminal")
   | "t.state", [] =>
     match st with
     | some t => (st, slotStr t.s1 ++ " / " ++ slotStr t.s2 ++ " / " ++ toString t.oracle)
